@@ -357,7 +357,7 @@ def run(tier):
     jobs = [(MOD, "job", {"items": [it], "extras": True}) for it in items[::-1]]
     if tier == "thorough":
         jobs += [(MOD, "job", {"items": [(s, k % 9)], "extras": False, "maxk": 2}) for k, s in enumerate(tree.plane_trees(nmax + 1))]
-    core.run_pool(jobs, 0, into=t)
+    core.run_pool(jobs + [("mc.capacity", "job", {"pid": "C13"})], 0, into=t)
     core.run_pool([(MOD, "job", {"items": c, "extras": False}) for c in core.chunks([(s, 1) for s in tree.shapes_upto(3)], core.NPROC)], 1, into=t)
     cov = {
         "states": t.c["states"], "transitions": t.c["evaluations"], "traces_validated_against_impl": t.c["evaluations"],
@@ -370,5 +370,5 @@ def run(tier):
         "bounds": {"max_nodes": nmax, "inputs": len(items)},
     }
     return {"tally": t, "coverage": cov,
-            "guards": ("nontrivial", "custom_function_exports", "history_runs", "stopped_child_of_declared_parent"),
+            "guards": ("capacity_checks", "nontrivial", "custom_function_exports", "history_runs", "stopped_child_of_declared_parent"),
             "assumptions": ["bounded sizes and name alphabet", "edge order is not fixed by the statement: edges are compared as a multiset"]}
